@@ -446,6 +446,30 @@ def _check_def(run, case):
                  'spelling=' + (l.split(':')[1] if ':' in l else
                                 re.sub(r'-?\d+', '', l))
                  for l, _, _ in results])
+    # call() finds every registered name: the same call() spelling under
+    # the definition's real name must not end in "no such function" when it
+    # works under the clone's name (competing overloads may make the
+    # result differ, a missing name may not)
+    for label, text, out in results:
+        if label == 'call()' and out[0] == 'ok':
+            real = text.replace("call('%s'" % d.clone_name,
+                                "call('%s'" % d.fd.name.replace(
+                                    '\\', '\\\\').replace("'", "\\'"), 1)
+            spell = [s_ for l_, s_ in sp if l_ == 'call()']
+            try:
+                _t, binds = spell[0]()
+            except Exception:   # noqa
+                break
+            o2 = evaluate(real, lambda b=binds: b, conv)
+            run.count(1, cls='call()-under-the-real-name')
+            if o2[0] == 'exc' and o2[1] in (
+                    'NoFunctionRegisteredException',
+                    'NoMethodRegisteredException'):
+                run.violate('call()-does-not-find-registered-name', case,
+                            '%s -> %r although %s works' % (real, o2, text),
+                            input_class=d.fd.name + '/call()')
+                return
+            break
     for g, items in by_group.items():
         items = [i for i in items if i[0] != 'positional+varargs']
         if len(items) < 2:
